@@ -93,6 +93,29 @@ Proof.
 Qed.
 
 (* ---------- builtin classes: converting a result again returns it ---------- *)
+Lemma int_of_dec_int d w : int_of_dec d = Ok w -> exists z, w = PInt z.
+Proof. unfold int_of_dec. intros H. destruct d; peel H; eauto. Qed.
+
+(* int(...) returns an int proper, never the bool it found in a one-element sequence *)
+Lemma to_integer_int nec ndl v w : to_integer nec ndl v = Ok w -> exists z, w = PInt z.
+Proof.
+  unfold to_integer. intros H.
+  destruct v; try (inv H; eauto; fail);
+  (destruct (if nec then _ else _) as [dd| | | |] eqn:Ed; cbn [bind] in H; try discriminate H;
+   match type of H with
+   | match ?early with Some _ => _ | None => _ end = Ok _ =>
+       destruct early as [r|] eqn:Eearly;
+       [ inv H; destruct nec; [discriminate Eearly|];
+         destruct dd; try discriminate Eearly;
+         repeat match type of Eearly with
+                | (if ?b then _ else _) = Some _ => destruct b
+                | Some _ = Some _ => inv Eearly
+                | None = Some _ => discriminate Eearly
+                end; eauto
+       | peel H; eauto using int_of_dec_int ]
+   end).
+Qed.
+
 Lemma handle_unresolved_same u c v w : handle_unresolved u c v = Ok w -> w = v.
 Proof.
   unfold handle_unresolved. destruct v; try (destruct (Nat.eqb c _)); destruct u; intros H; try discriminate H;
@@ -120,13 +143,31 @@ Proof.
     + pose proof (handle_unresolved_same _ _ _ _ H) as ->. rewrite Ex. exact H.
 Qed.
 
-(* ... and is of the exact class, leak and pass-through classes apart *)
+(* ... and is of the exact class, pass-through classes (dict, classes without transformer) apart *)
 Lemma conv_prim_exact nec ndl u p v w :
-  conv_prim nec ndl u p v = Ok w -> exact_arm (TPrim p) = true -> leak p w = false -> prim_exact p w = true.
+  conv_prim nec ndl u p v = Ok w -> exact_arm (TPrim p) = true -> prim_exact p w = true.
 Proof.
-  intros H Ha Hl. assert (Hi : prim_isinstance p w = true).
-  { eapply conv_prim_sound; [exact H|]. intros _. destruct p; try reflexivity. discriminate Ha. }
-  destruct p, w; try discriminate Ha; try discriminate Hl; try discriminate Hi; exact Hi || reflexivity.
+  unfold conv_prim. destruct (prim_exact p v) eqn:Ex; intros H Ha.
+  - injection H as <-. exact Ex.
+  - destruct p; try discriminate Ha.
+    + apply to_null_sound in H. subst. reflexivity.
+    + apply to_bool_sound in H. destruct H as [b ->]. reflexivity.
+    + apply to_integer_int in H. destruct H as [z ->]. reflexivity.
+    + apply to_float_sound in H. destruct w; try discriminate; reflexivity.
+    + apply to_decimal_sound in H. destruct w; try discriminate; reflexivity.
+    + apply to_str_sound in H. destruct w; try discriminate; reflexivity.
+    + apply to_bytes_sound in H. destruct w; try discriminate; reflexivity.
+    + apply to_array_sound in H. destruct w; try discriminate; reflexivity.
+    + apply to_array_sound in H. destruct w; try discriminate; reflexivity.
+    + apply to_array_sound in H. destruct w; try discriminate; reflexivity.
+    + apply to_array_sound in H. destruct w; try discriminate; reflexivity.
+Qed.
+
+Lemma conv_prim_noleak nec ndl u p v w : conv_prim nec ndl u p v = Ok w -> leak p w = false.
+Proof.
+  intros H. destruct p; try (destruct w; reflexivity).
+  assert (Hx : prim_exact TInt w = true) by (eapply conv_prim_exact; [exact H|reflexivity]).
+  destruct w; try discriminate Hx; reflexivity.
 Qed.
 
 Section Idem.
@@ -435,7 +476,7 @@ Proof.
   destruct ell; try discriminate. auto.
 Qed.
 
-(* typed / ints_exact of a fixed-length tuple, as relations *)
+(* typed / xor_exact of a fixed-length tuple, as relations *)
 Fixpoint typed_list (ts : list ty) (ys : list pyval) : bool :=
   match ts, ys with
   | [], _ => true
@@ -443,10 +484,10 @@ Fixpoint typed_list (ts : list ty) (ys : list pyval) : bool :=
   | _ :: _, [] => false
   end.
 
-Fixpoint ints_list (ts : list ty) (ys : list pyval) : bool :=
+Fixpoint xor_list (ts : list ty) (ys : list pyval) : bool :=
   match ts, ys with
   | [], _ => true
-  | a :: ts', y :: ys' => ints_exact a y && ints_list ts' ys'
+  | a :: ts', y :: ys' => xor_exact a y && xor_list ts' ys'
   | _ :: _, [] => true
   end.
 
@@ -719,7 +760,7 @@ End Step.
 (* ================= the results of a parse are typed (up to the bool-for-int leak) ================= *)
 Definition typed_tr (tr : knot) : Prop :=
   forall o depth t v s s' w, throwing o -> stable t = true ->
-    tr o depth t v s = (s', Ok w) -> ints_exact t w = true ->
+    tr o depth t v s = (s', Ok w) -> xor_exact t w = true ->
     typed t w = true /\ (exact_arm t = true -> exact_type t w = true) /\ (t = TPrim TDict -> w <> PNone).
 
 Section Typed.
@@ -727,7 +768,7 @@ Variable tr : knot.
 Hypothesis Htyp : typed_tr tr.
 
 Lemma enter_typed o depth a x r : throwing o -> stable a = true ->
-  enter_tr tr o depth true a x = Entered (Ok r) -> ints_exact a r = true ->
+  enter_tr tr o depth true a x = Entered (Ok r) -> xor_exact a r = true ->
   typed a r = true /\ (exact_arm a = true -> exact_type a r = true) /\ (a = TPrim TDict -> r <> PNone).
 Proof.
   intros Ho Hst H Hi. unfold enter_tr, in_fresh in H.
@@ -739,7 +780,7 @@ Qed.
 Lemma rule_tuple_typed o depth args vals mn mx v s s' w :
   throwing o -> checking_vals vals = true -> args <> [] -> forallb stable args = true ->
   rule_parse re tr o depth (Some (TPrim TTuple)) args false vals None mn mx v s = (s', Ok w) ->
-  (match w with PTuple xs => ints_list args xs | _ => true end) = true ->
+  (match w with PTuple xs => xor_list args xs | _ => true end) = true ->
   (match w with PTuple xs => typed_list args xs | _ => false end) = true.
 Proof.
   intros Ho Hck Hne Hst H Hi.
@@ -771,7 +812,7 @@ Proof.
   generalize (match o_addition o with Some true => skipn (List.length args) vals0 | _ => [] end).
   induction HF as [|a r args res Hp HF IH]; intros ex Hi Hst; [reflexivity|].
   cbn [forallb] in Hst. apply andb_prop in Hst. destruct Hst as [Ha Hst].
-  cbn [app ints_list typed_list] in *. apply andb_prop in Hi. destruct Hi as [Hia Hi].
+  cbn [app xor_list typed_list] in *. apply andb_prop in Hi. destruct Hi as [Hia Hi].
   destruct Hp as [x Hx]. apply andb_true_intro. split.
   - eapply enter_typed; [exact Ho|exact Ha|exact Hx|exact Hia].
   - eapply IH; eassumption.
@@ -780,13 +821,13 @@ Qed.
 Lemma rule_parse_typed o depth origin args ell vals ct mn mx v s s' w :
   throwing o -> stable (TRule origin args ell vals ct mn mx) = true ->
   rule_parse re tr o depth origin args ell vals ct mn mx v s = (s', Ok w) ->
-  ints_exact (TRule origin args ell vals ct mn mx) w = true ->
+  xor_exact (TRule origin args ell vals ct mn mx) w = true ->
   typed (TRule origin args ell vals ct mn mx) w = true.
 Proof.
   intros Ho Hst H Hi. cbn [stable] in Hst.
   apply andb_prop in Hst. destruct Hst as [Hst Hshape]. apply andb_prop in Hst. destruct Hst as [Hck Hct].
   destruct ct as [c|]; [discriminate Hct|]. clear Hct.
-  cbn [typed ints_exact] in *.
+  cbn [typed xor_exact] in *.
   destruct (tuple_origin origin ell && negb (match args with [] => true | _ => false end)) eqn:Etup.
   { apply andb_prop in Etup. destruct Etup as [Eto Ene]. destruct (tuple_origin_inv _ _ Eto) as [-> ->].
     assert (Hne : args <> []) by (destruct args; [discriminate Ene|discriminate]).
@@ -805,7 +846,7 @@ Proof.
     { (* a sequence origin never returns None *) exfalso.
       pose proof Hor as Hx.
       assert (Hst : stable (TPrim p) = true) by reflexivity.
-      assert (Hi0 : ints_exact (TPrim p) PNone = true) by (destruct p; reflexivity).
+      assert (Hi0 : xor_exact (TPrim p) PNone = true) by (destruct p; reflexivity).
       destruct (Htyp _ _ _ _ _ _ _ Ho Hst Hx Hi0) as [_ [Hex _]].
       assert (Ha : exact_arm (TPrim p) = true) by (destruct p; try discriminate Hsp; reflexivity).
       specialize (Hex Ha). destruct p; discriminate Hex || discriminate Hsp. }
@@ -867,8 +908,8 @@ Proof.
         cbn [or_stage] in H. injection H as <-. cbn [e_tmp]. destruct (e_tmp s); discriminate.
 Qed.
 
-Lemma exact_arm_not_bool a r : exact_arm a = true -> is_bool r = false -> ints_exact a r = true.
-Proof. destruct a as [|p| | |]; try discriminate; intros _ Hb; [|reflexivity]. destruct p, r; try discriminate Hb; reflexivity. Qed.
+Lemma exact_arm_xor a r : exact_arm a = true -> xor_exact a r = true.
+Proof. destruct a as [|p| | |]; try discriminate; reflexivity. Qed.
 
 Lemma exact_arm_stable a : exact_arm a = true -> stable a = true.
 Proof. destruct a; try discriminate; reflexivity. Qed.
@@ -876,17 +917,16 @@ Proof. destruct a; try discriminate; reflexivity. Qed.
 Lemma logical_parse_typed o depth op args v s s' w :
   throwing o -> stable (TLogic op args) = true ->
   logical_parse tr o depth op args v s = (s', Ok w) ->
-  ints_exact (TLogic op args) w = true -> typed (TLogic op args) w = true.
+  xor_exact (TLogic op args) w = true -> typed (TLogic op args) w = true.
 Proof.
-  intros Ho Hst H Hi. destruct op; cbn [stable] in Hst; try discriminate Hst; cbn [typed ints_exact] in *;
+  intros Ho Hst H Hi. destruct op; cbn [stable] in Hst; try discriminate Hst; cbn [typed xor_exact] in *;
     try exact Hi; try reflexivity.
   apply andb_prop in Hst. destruct Hst as [Hne Harms].
   destruct (existsb (fun a => exact_type a w) args) eqn:Ew; [reflexivity|]. exfalso.
-  rewrite orb_false_r in Hi. apply negb_true_iff in Hi.
   (* a result produced by an argument is an exact instance of it *)
   assert (Hprod : forall o', throwing o' -> forall a, In a args -> enter_tr tr o' depth true a v = Entered (Ok w) -> False).
   { intros o' Ho' a Hin E. rewrite forallb_forall in Harms. pose proof (Harms a Hin) as Ha.
-    destruct (enter_typed o' depth a v w Ho' (exact_arm_stable a Ha) E (exact_arm_not_bool a w Ha Hi)) as [_ [Hex _]].
+    destruct (enter_typed o' depth a v w Ho' (exact_arm_stable a Ha) E (exact_arm_xor a w Ha)) as [_ [Hex _]].
     specialize (Hex Ha).
     assert (Hc : existsb (fun a => exact_type a w) args = true) by (apply existsb_exists; eauto).
     congruence. }
@@ -920,9 +960,8 @@ Lemma transform_step_typed : typed_tr (transform_step re D tr).
 Proof.
   intros o depth t v s s' w Ho Hst H Hi. destruct t as [|p|origin args ell vals ct mn mx|op args|c]; cbn [transform_step] in *.
   - split; [reflexivity|]. split; discriminate.
-  - split; [exact Hi|]. unfold lift in H. injection H as _ H. split.
-    + intros Ha. cbn [exact_type].
-      cbn [ints_exact] in Hi. apply negb_true_iff in Hi. eapply conv_prim_exact; eassumption.
+  - unfold lift in H. injection H as _ H. split; [cbn [typed]; apply negb_true_iff; eapply conv_prim_noleak; exact H|]. split.
+    + intros Ha. cbn [exact_type]. eapply conv_prim_exact; eassumption.
     + intros E. injection E as ->. intros ->.
       assert (Hx : prim_isinstance TDict PNone = true) by (eapply conv_prim_sound; [exact H|reflexivity]).
       discriminate Hx.
@@ -970,7 +1009,7 @@ Proof.
 Qed.
 (* the two halves together: only the bool-for-int leak is left as a hypothesis *)
 Theorem transform_reparse fuel o depth t v s s' w : throwing o -> stable t = true ->
-  transform re D fuel o depth t v s = (s', Ok w) -> ints_exact t w = true ->
+  transform re D fuel o depth t v s = (s', Ok w) -> xor_exact t w = true ->
   forall s2, clean s2 -> transform re D fuel o depth t w s2 = (s2, Ok w).
 Proof.
   intros Ho Hst H Hi. apply (proj1 (transform_fixed fuel) _ _ _ _ _ _ _ Ho Hst H).
@@ -978,7 +1017,7 @@ Proof.
 Qed.
 
 Theorem call_type_reparse fuel o t v w : throwing o -> stable t = true ->
-  call_type re D fuel o t v = Ok w -> ints_exact t w = true -> call_type re D fuel o t w = Ok w.
+  call_type re D fuel o t v = Ok w -> xor_exact t w = true -> call_type re D fuel o t w = Ok w.
 Proof.
   intros Ho Hst H Hi. eapply call_type_fixed; try eassumption.
   unfold call_type in H.
@@ -990,7 +1029,7 @@ Proof.
 Qed.
 
 Theorem type_transform_reparse fuel o t v w : throwing o -> stable t = true ->
-  type_transform re D fuel o t v = Ok w -> ints_exact t w = true -> type_transform re D fuel o t w = Ok w.
+  type_transform re D fuel o t v = Ok w -> xor_exact t w = true -> type_transform re D fuel o t w = Ok w.
 Proof.
   intros Ho Hst H Hi. unfold type_transform in *.
   destruct (depth_check o 1); try discriminate H; cbn [bind] in *;
